@@ -24,7 +24,7 @@ RULE = ('statement lists len<=N over the menu x skip_unknown forms; one evaluati
         'and finalize of placeholders. dynamic registration: menu x skip forms x {first parse, already registered}. '
         'non-trivial = list contains an unknown name.')
 ASSUMPTIONS = ['statement menu and skip forms as in coverage', 'scratch module for dynamic registration created per run']
-WITNESSES = ['known_from_the_import_on', 'unknown_binding_dropped', 'unknown_block_dropped', 'known_always_applied', 'unlisted_unknown_error',
+WITNESSES = ['known_is_per_file', 'known_from_the_import_on', 'unknown_binding_dropped', 'unknown_block_dropped', 'known_always_applied', 'unlisted_unknown_error',
              'placeholder_kept', 'placeholder_raises_on_use', 'placeholder_raises_at_finalize', 'missing_import_skipped',
              'list_form', 'set_form', 'tuple_form', 'dynamic_known_applied', 'dynamic_unknown_skipped',
              'known_reference_stays_real']
@@ -338,6 +338,45 @@ LATE = {
                          {('', 'c15late.late_fn'): {'a': 2, 'b': 3}}),
     'import_registers_block': ("late_fn:\n  a = 1\nimport c15late\nlate_fn:\n  b = 3\n", {('', 'c15late.late_fn'): {'b': 3}}),
 }
+# registered by an EARLIER dynamic-registration parse, but not imported by the file at hand: unknown in this file
+EARLIER = H_DYN + 'import c15mod\nc15mod.fn.arg = 0\nc15mod.known.a = 0\n'
+NOT_IMPORTED = {
+    'binding': (H_DYN + "c15mod.fn.arg = 2\nimport json\n", 'c15mod.fn'),
+    'block': (H_DYN + "c15mod.known:\n  a = 1\n", 'c15mod.known'),
+    'scoped': (H_DYN + "s/c15mod.fn.arg = 2\n", 'c15mod.fn'),
+    'reference': (H_DYN + "import json\njson.dumps.obj = @c15mod.fn()\n", 'c15mod.fn'),
+}
+
+
+def run_not_imported_case(case, res):
+  _, name, sname = case
+  text, target = NOT_IMPORTED[name]
+  skip = dict(LATE_SKIPS, **{'False': False, 'other_list': ['zzz']})[sname]
+  harness.hard_reset()
+  gin.parse_config(EARLIER)
+  cfg._CONFIG.clear()
+  cfg._CONFIG_PROVENANCE.clear()
+  res.case(tuple(case), True)
+  try:
+    gin.parse_config(text, skip_unknown=skip)
+    out = 'ok'
+  except Exception as e:  # pylint: disable=broad-except
+    out = type(e).__name__
+  got = {k: {p: canon_real(v) for p, v in d.items()} for k, d in cfg._CONFIG.items()}
+  res.outcome('not_imported:%s' % out)
+  if covers(skip, target):
+    want = {} if name != 'reference' else {('', 'json.dumps'): {'obj': P('c15mod.fn', True)}}
+    if out != 'ok' or got != want:
+      res.violation('dynamic_unknown_not_skipped', '%r: %s is registered by an earlier file but not imported by this one '
+                    '(unknown here), skip_unknown=%r: %s, config %r, expected %r' % (case, target, skip, out, got, want),
+                    list(case))
+    else:
+      res.w('known_is_per_file')
+  elif out == 'ok':
+    res.violation('dynamic_unknown_accepted', '%r: skip_unknown=%r does not cover %s, yet the parse was accepted: %r' %
+                  (case, skip, target, got), list(case))
+
+
 LATE_SKIPS = {'True': True, 'list': ['c15mod.fn', 'c15mod.known', 'late_fn'], 'tuple': ('c15mod.fn', 'c15mod.known', 'late_fn'),
               'set': {'c15mod.fn', 'c15mod.known', 'late_fn'}}
 
@@ -363,6 +402,9 @@ def run_late_case(case, res):
 
 
 def gen(tier):
+  for name in NOT_IMPORTED:
+    for sname in list(LATE_SKIPS) + ['False', 'other_list']:
+      yield ['notimp', name, sname]
   for name in LATE:
     for sname in LATE_SKIPS:
       yield ['late', name, sname]
@@ -389,7 +431,9 @@ def run_shard(i, tier):
     if n % NSH != i:
       continue
     try:
-      if c[0] == 'late':
+      if c[0] == 'notimp':
+        run_not_imported_case(c, res)
+      elif c[0] == 'late':
         run_late_case(c, res)
       elif c[0] == 'dyn':
         run_dyn_case(c, res)
@@ -407,7 +451,9 @@ def run_shard(i, tier):
 
 def replay(c):
   res = core.Result()
-  if c[0] == 'late':
+  if c[0] == 'notimp':
+    run_not_imported_case(c, res)
+  elif c[0] == 'late':
     run_late_case(c, res)
   elif c[0] == 'dyn':
     run_dyn_case(c, res)
